@@ -1,8 +1,8 @@
-/* C09: format_data (hex dump) geometry. The complete text handed to write_data is captured and decoded here by an
- * independent dump parser. Cells: SIZE (data length), ALIGN (start_address & 15), FLAGS (PrintDataFlags without colour and
+/* C09: format_data (hex dump) geometry and diff highlighting. The complete text handed to write_data is captured and decoded
+ * here by an independent dump parser. Cells: SIZE (data length), ALIGN (start_address & 15), FLAGS (PrintDataFlags without
  * float columns), START (start address, any 64-bit value), C1 <= C2 (iovec cut points: the data is passed as the three iovecs
  * [0,C1) [C1,C2) [C2,SIZE), parts may be empty), WIDTH (digits of the address column expected for the cell: forced by an
- * OFFSET_*_BITS flag, otherwise 2/4/8/16 for end address <= 0x100 / 0x10000 / 0x100000000 / above). Data bytes symbolic (all
+ * OFFSET_*_BITS flag, otherwise 2/4/8/16 for last address < 0x100 / 0x10000 / 0x100000000 / above). Data bytes symbolic (all
  * 256 values). Sizes, addresses and cut points have to be concrete: the function derives every loop bound from
  * start_address + sum(iov_len), which CBMC cannot fold when any of them is symbolic (no verdict in 300 s even for size 0).
  * Checked for every line L of the ceil((ALIGN+SIZE)/16) lines: address column == (start & ~15) + 16 L in WIDTH upper-case
@@ -10,25 +10,119 @@
  * in [start, start+SIZE), three blanks otherwise; ASCII column shows the byte itself when 0x20..0x7E, a blank otherwise.
  * With COLLAPSE_ZERO_LINES a line may be missing only if it is neither the first nor the last line and all its 16 bytes are
  * zero, and such lines must be missing. The text does not depend on (c1, c2) because the expected text does not.
- * vasprintf = exact hex model stub_printf.h ("%0*lX", " %02X"). */
+ *
+ * Diff / colour mode. DIFF defined: a previous buffer `prev` of SIZE symbolic bytes is passed as the two iovecs [0,PC) [PC,SIZE).
+ * FLAGS & USE_COLOR (0x01): the text may contain terminal escape sequences. They are decoded here as ECMA-48 SGR sequences
+ * `ESC [ n (; n)* m` with n in {0 = all attributes off, 1 = bold, 7 = inverse, 31 = red}; anything else is a failure. Every
+ * remaining character carries the attribute state in force when it was printed. Then
+ *   - the text WITHOUT the escape sequences is exactly the ordinary dump (all the checks above apply to it);
+ *   - the two hex digits of the byte at offset i are highlighted (bold and red) iff DIFF and data[i] != prev[i]; likewise its
+ *     character in the ASCII column; that character is inverse iff the byte is not printable (0x20..0x7E);
+ *   - everything else (address column, separators, blanks of addresses outside the range, line terminator) carries no
+ *     attribute at all; the blank that precedes the two hex digits of a byte is not constrained (a blank shows neither bold nor red).
+ * Without USE_COLOR no escape character may appear (the ordinary checks fail on it), with or without prev.
+ * vasprintf = exact hex model stub_printf.h ("%0*lX", " %02X"). phosg::format_color_escape (variadic: clang lowers va_arg to
+ * x86-64 register-save-area arithmetic that has no meaning for CBMC) is cut and replaced IN THE GENERATED-C MODES by the exact
+ * model below; the native real build runs the real function and translation validation compares the texts. */
 #include "harness.h"
 #define VERIF_PRINTF_CAP 24
 #include "stub_printf.h"
 int64_t w_format_data(uint8_t* data, uint64_t n, uint64_t c1, uint64_t c2, uint64_t start_address, uint64_t flags, uint8_t* out, uint64_t cap);
+int64_t w_format_data_diff(uint8_t* data, uint8_t* prev, uint64_t n, uint64_t c1, uint64_t c2, uint64_t pc, uint64_t start_address, uint64_t flags, uint8_t* out, uint64_t cap);
 
+#define F_COLOR 0x01
 #define F_ASCII 0x02
 #define F_COLLAPSE 0x20
 #define F_SKIPSEP 0x40
+#define COLOR ((FLAGS) & F_COLOR)
 #define ALIGN ((START) & 15)
 #define NL ((ALIGN + SIZE + 15) / 16)
 #define SEPW ((FLAGS & F_SKIPSEP) ? 0 : 2)
 #define ASCW ((FLAGS & F_ASCII) ? (((FLAGS & F_SKIPSEP) ? 1 : 3) + 16) : 0)
 #define LW (WIDTH + SEPW + 48 + ASCW + 1)
-#define CAP (NL * LW + 1)
+/* colour: per byte at most ESC[1;31m + ESC[0m around the hex field and around the ASCII character, ESC[7m + ESC[0m inside */
+#define ESCW (COLOR ? SIZE * (2 * 11 + 8) : 0)
+#define CAP (NL * LW + ESCW + 1)
+#define A_BOLD 1
+#define A_RED 2
+#define A_INV 4
+#define A_HL (A_BOLD | A_RED)
+#ifndef PC
+#define PC 0
+#endif
 static uint8_t hexch(uint32_t v) { return (uint8_t)(v < 10 ? '0' + v : 'A' + (v - 10)); }
 
+#ifndef VERIF_NATIVE_REAL
+/* std::string phosg::format_color_escape(TerminalFormat color, ...): "\033[" + decimal attributes joined by ';' + "m", the
+ * list ends at TerminalFormat::END (-1), the first attribute is always printed. ret = sret pointer to an uninitialised
+ * libstdc++ std::string {char* data; size_t size; char buf[16]}. Attributes 0..99, at most 4 of them (15 characters). */
+void X__ZN5phosg19format_color_escapeB5cxx11ENS_14TerminalFormatEz(uint8_t* ret, uint32_t color, ...) {
+  va_list va;
+  va_start(va, color);
+  uint8_t* buf = ret + 16;
+  uint32_t n = 0, bound_ok = 1, more = 1;
+  buf[n++] = 0x1B;
+  for (int k = 0; k < 4; k++) if (more) {
+    if (color > 99u) bound_ok = 0;
+    buf[n++] = (uint8_t)(k == 0 ? '[' : ';');
+    uint32_t u = color, tens = 0;
+    for (int j = 0; j < 9; j++) if (u >= 10u) { u -= 10u; tens++; }
+    if (tens) buf[n++] = (uint8_t)('0' + tens);
+    buf[n++] = (uint8_t)('0' + (u & 15u));
+    color = va_arg(va, uint32_t);
+    if (color == 0xFFFFFFFFu) more = 0;
+  }
+  if (more) bound_ok = 0;
+  va_end(va);
+#ifdef VERIF_CBMC
+  __CPROVER_assert(bound_ok, "BOUND: format_color_escape model covers 1..4 attributes in 0..99");
+#else
+  if (!bound_ok) ASSERT(0, "BOUND: format_color_escape model covers 1..4 attributes in 0..99"); /* silent unless it fails: this model does not exist in the real build */
+#endif
+  ASSUME(bound_ok);
+  buf[n++] = 'm';
+  buf[n] = 0;
+  *(uint8_t**)ret = buf;
+  *(uint64_t*)(ret + 8) = n;
+}
+#endif
+
+#if COLOR
+/* remove the escape sequences from raw[0..r), remember the attribute state of every remaining character; 0 = malformed */
+static int strip_escapes(const uint8_t* raw, uint64_t r, uint8_t* text, uint8_t* attr, uint64_t* pn_out) {
+  uint64_t pn = 0, ip = 0;
+  uint8_t cur = 0;
+  int esc_ok = 1;
+  for (int k = 0; k < CAP; k++) if (esc_ok && ip < r) {
+    uint8_t ch = raw[ip];
+    if (ch != 0x1B) { text[pn] = ch; attr[pn] = cur; pn++; ip++; continue; }
+    if (ip + 1 >= r || raw[ip + 1] != '[') { esc_ok = 0; continue; }
+    ip += 2;
+    int done = 0;
+    for (int a = 0; a < 3; a++) if (!done) {
+      uint32_t v = 0, nd = 0;
+      for (int d = 0; d < 2; d++) if (ip < r && raw[ip] >= '0' && raw[ip] <= '9') { v = v * 10u + (uint32_t)(raw[ip] - '0'); nd++; ip++; }
+      if (!nd) { esc_ok = 0; done = 1; }
+      else if (v == 0) cur = 0;
+      else if (v == 1) cur |= A_BOLD;
+      else if (v == 31) cur |= A_RED;
+      else if (v == 7) cur |= A_INV;
+      else { esc_ok = 0; done = 1; }
+      if (!done) {
+        if (ip < r && raw[ip] == ';') ip++;
+        else if (ip < r && raw[ip] == 'm') { ip++; done = 1; }
+        else { esc_ok = 0; done = 1; }
+      }
+    }
+    if (!done) esc_ok = 0;
+  }
+  *pn_out = pn;
+  return esc_ok && ip == r;
+}
+#endif
+
 void harness(void) {
-  uint8_t data[SIZE + 1], text[CAP + 1];
+  uint8_t data[SIZE + 1], prev[SIZE + 1], raw[CAP + 1];
   in_bytes(data, SIZE);
   uint64_t c1 = C1, c2 = C2;
   uint64_t start = (uint64_t)START;
@@ -36,50 +130,101 @@ void harness(void) {
   /* does the dumped range, rounded out to whole lines, reach the end of the 64-bit address space? */
   int reaches_top = NL > 0 && first_line >= (uint64_t)0 - (uint64_t)16 * NL;
   (void)reaches_top; /* cells with reaches_top are the known-finding probes */
-  int64_t r = w_format_data(data, SIZE, c1, c2, start, FLAGS, text, CAP);
+#ifdef DIFF
+  in_bytes(prev, SIZE);
+  int64_t r = w_format_data_diff(data, prev, SIZE, c1, c2, PC, start, FLAGS, raw, CAP);
+#else
+  for (int i = 0; i < SIZE; i++) prev[i] = data[i];
+  int64_t r = w_format_data(data, SIZE, c1, c2, start, FLAGS, raw, CAP);
+#endif
   OBS(r);
   ASSERT(r >= 0, "format_data does not throw and the text fits the expected size");
   if (r < 0) return;
 #if SIZE == 0
   ASSERT(r == 0, "nothing is printed for empty data");
 #else
+#if COLOR
+  uint8_t text[CAP + 1], attr[CAP + 1];
+  uint64_t pn = 0;
+  int esc_ok = strip_escapes(raw, (uint64_t)r, text, attr, &pn);
+  ASSERT(esc_ok, "escape sequences are well-formed SGR sequences (ESC [ n ; ... m) with attributes 0, 1, 7, 31 only");
+  if (!esc_ok) return;
+  r = (int64_t)pn;
+  OBS(r);
+#else
+  uint8_t* text = raw;
+#endif
   uint64_t pos = 0;
   for (int L = 0; L < NL; L++) {
     uint64_t la = first_line + (uint64_t)16 * L;
     /* expected content of the line */
     int allzero = 1;
-    for (int c = 0; c < 16; c++) { uint64_t off = la + c - start; if (off < SIZE && data[off] != 0) allzero = 0; }
+    for (int c = 0; c < 16; c++) {
+      uint64_t off = la + c - start;
+      if (off < SIZE && data[off] != 0) allzero = 0;
+#ifdef DIFF
+      if (off < SIZE && prev[off] != 0) allzero = 0; /* a line that is zero now but was not before is a change and stays */
+#endif
+    }
     int collapsible = (FLAGS & F_COLLAPSE) && L > 0 && L < NL - 1 && allzero;
     if (collapsible) continue; /* must be absent: the next present line is compared at this position */
     ASSERT(pos + LW <= (uint64_t)r, "a line that may not be collapsed is present");
     if (pos + LW > (uint64_t)r) return;
-    int ok_addr = 1, ok_hex = 1, ok_asc = 1, ok_sep = 1;
-    for (int k = 0; k < WIDTH; k++) { uint32_t nib = (uint32_t)(la >> (4 * (WIDTH - 1 - k))) & 15; if (text[pos + k] != hexch(nib)) ok_addr = 0; }
+    int ok_addr = 1, ok_hex = 1, ok_asc = 1, ok_sep = 1, ok_hl = 1, ok_plain = 1, ok_inv = 1;
+#if COLOR
+#define PLAIN(i) do { if (attr[i] != 0) ok_plain = 0; } while (0)
+#else
+#define PLAIN(i) do { } while (0)
+#endif
+    for (int k = 0; k < WIDTH; k++) { uint32_t nib = (uint32_t)(la >> (4 * (WIDTH - 1 - k))) & 15; if (text[pos + k] != hexch(nib)) ok_addr = 0; PLAIN(pos + k); }
     if (WIDTH < 16 && (la >> (4 * WIDTH)) != 0) ok_addr = 0; /* cell parameters must make the address fit */
     uint64_t p = pos + WIDTH;
-    if (SEPW) { if (text[p] != ' ' || text[p + 1] != '|') ok_sep = 0; p += 2; }
+    if (SEPW) { if (text[p] != ' ' || text[p + 1] != '|') ok_sep = 0; PLAIN(p); PLAIN(p + 1); p += 2; }
     for (int c = 0; c < 16; c++) {
       uint64_t off = la + c - start;
-      if (off < SIZE) { if (text[p] != ' ' || text[p + 1] != hexch(data[off] >> 4) || text[p + 2] != hexch(data[off] & 15)) ok_hex = 0; }
-      else if (text[p] != ' ' || text[p + 1] != ' ' || text[p + 2] != ' ') ok_hex = 0;
+      if (off < SIZE) {
+        if (text[p] != ' ' || text[p + 1] != hexch(data[off] >> 4) || text[p + 2] != hexch(data[off] & 15)) ok_hex = 0;
+#if COLOR
+        int differs = data[off] != prev[off];
+        if (((attr[p + 1] & A_HL) == A_HL) != differs || ((attr[p + 2] & A_HL) == A_HL) != differs) ok_hl = 0;
+        if (!differs && (attr[p + 1] != 0 || attr[p + 2] != 0)) ok_hl = 0;
+        if ((attr[p + 1] | attr[p + 2]) & A_INV) ok_inv = 0;
+#endif
+      } else {
+        if (text[p] != ' ' || text[p + 1] != ' ' || text[p + 2] != ' ') ok_hex = 0;
+        PLAIN(p); PLAIN(p + 1); PLAIN(p + 2);
+      }
       p += 3;
     }
     if (FLAGS & F_ASCII) {
-      if (FLAGS & F_SKIPSEP) { if (text[p] != ' ') ok_sep = 0; p += 1; }
-      else { if (text[p] != ' ' || text[p + 1] != '|' || text[p + 2] != ' ') ok_sep = 0; p += 3; }
+      if (FLAGS & F_SKIPSEP) { if (text[p] != ' ') ok_sep = 0; PLAIN(p); p += 1; }
+      else { if (text[p] != ' ' || text[p + 1] != '|' || text[p + 2] != ' ') ok_sep = 0; PLAIN(p); PLAIN(p + 1); PLAIN(p + 2); p += 3; }
       for (int c = 0; c < 16; c++) {
         uint64_t off = la + c - start;
         uint8_t want = ' ';
         if (off < SIZE && data[off] >= 0x20 && data[off] <= 0x7E) want = data[off];
         if (text[p] != want) ok_asc = 0;
+#if COLOR
+        if (off < SIZE) {
+          int differs = data[off] != prev[off];
+          int printable = data[off] >= 0x20 && data[off] <= 0x7E;
+          if (((attr[p] & A_HL) == A_HL) != differs) ok_hl = 0;
+          if (!differs && (attr[p] & A_HL) != 0) ok_hl = 0;
+          if (((attr[p] & A_INV) != 0) != !printable) ok_inv = 0;
+        } else PLAIN(p);
+#endif
         p++;
       }
     }
     if (text[p] != '\n') ok_sep = 0;
+    PLAIN(p);
     ASSERT(ok_addr, "address column == (start & ~15) + 16*line in the expected number of upper-case hex digits");
     ASSERT(ok_sep, "separators and the line terminator are in place");
     ASSERT(ok_hex, "hex columns decode to the data bytes at the right addresses, blanks exactly outside [start, start+size)");
     ASSERT(ok_asc, "ASCII column shows printable bytes, blanks otherwise and outside the range");
+    ASSERT(ok_hl, "a byte's hex digits and ASCII character are highlighted (bold red) iff the byte differs from the previous buffer at the same offset");
+    ASSERT(ok_inv, "inverse video marks exactly the non-printable bytes of the ASCII column");
+    ASSERT(ok_plain, "address column, separators, out-of-range blanks and the line terminator carry no colour attribute");
     pos += LW;
   }
   ASSERT((uint64_t)r == pos, "no further text: only all-zero interior lines are collapsed, every other line is printed exactly once");
